@@ -26,7 +26,8 @@ ASSUMPTIONS = [
 
 
 def grammar_text(case, static):
-    """static: put {assoc, prio} on operator productions"""
+    """static: put {assoc, prio} on operator productions.  case["sign"]: 0 no sign rule, 1 `Sign: '~' | EMPTY`
+    unmarked, 2 the EMPTY alternative marked dynamic, 3 both alternatives marked"""
     alts = []
     for i, (oi, prio, assoc) in enumerate(case["ops"]):
         metas = []
@@ -35,11 +36,45 @@ def grammar_text(case, static):
         if case["mark_prod"][i]:
             metas.append("dynamic")
         alts.append("E %s E%s" % (OPNAMES[oi], " {%s}" % ", ".join(metas) if metas else ""))
-    alts.append("atom {dynamic}" if case.get("mark_atom") else "atom")
+    sign = case.get("sign", 0)
+    atom = "Sign atom" if sign else "atom"
+    alts.append(atom + " {dynamic}" if case.get("mark_atom") else atom)
     terms = []
     for i, (oi, prio, assoc) in enumerate(case["ops"]):
         terms.append("%s: '%s'%s;" % (OPNAMES[oi], OPS[oi], " {dynamic}" if case["mark_term"][i] else ""))
-    return "E: %s;\nterminals\n%s\natom: 'n';\n" % (" | ".join(alts), "\n".join(terms))
+    sign_rule = ""
+    if sign:
+        sign_rule = "Sign: tilde%s | EMPTY%s;\n" % (" {dynamic}" if sign == 3 else "", " {dynamic}" if sign >= 2 else "")
+        terms.append("tilde: '~';")
+    return "E: %s;\n%sterminals\n%s\natom: 'n';\n" % (" | ".join(alts), sign_rule, "\n".join(terms))
+
+
+def classify(prod):
+    """which production of the generated grammar: ('op', name) | ('atom',) | ('sign', 'tilde'|'empty')"""
+    rhs = [prod.rhs[i].name for i in range(len(prod.rhs))]     # len() / indexing leave EMPTY out
+    if prod.symbol.name == "Sign":
+        return ("sign", "tilde" if rhs else "empty")
+    if len(rhs) == 3:
+        return ("op", rhs[1])
+    return ("atom",)
+
+
+def is_marked(kind, case):
+    if kind[0] == "op":
+        return kind[1] in {OPNAMES[oi] for i, (oi, _, _) in enumerate(case["ops"]) if case["mark_prod"][i]}
+    if kind[0] == "atom":
+        return bool(case.get("mark_atom"))
+    sign = case.get("sign", 0)
+    return sign == 3 or (sign == 2 and kind[1] == "empty")
+
+
+def leaves(v):
+    if isinstance(v, list):
+        out = []
+        for x in v:
+            out += leaves(x)
+        return out
+    return [] if v is None else [v]
 
 
 class Recorder:
@@ -74,9 +109,10 @@ def make_reject(prod_op_name):
         if action is None:
             return None
         if action is REDUCE:
-            if prod_op_name is None and len(production.rhs) == 1:
+            k = classify(production)
+            if prod_op_name is None and k == ("atom",):
                 return False
-            if prod_op_name is not None and len(production.rhs) == 3 and production.rhs[1].name == prod_op_name:
+            if prod_op_name is not None and k == ("op", prod_op_name):
                 return False
         return True
     return f
@@ -97,7 +133,7 @@ def make_precedence(table):
             p1, a1 = table[reds[0].prod.rhs[1].name]
             return p2 > p1 or (p2 == p1 and a1 == "right")
         op = context.token_ahead.symbol
-        if op.name not in table:   # STOP
+        if op.name not in table or classify(production)[0] != "op":   # STOP; atom and sign productions
             return True
         p2, a2 = table[op.name]
         p1, a1 = table[production.rhs[1].name]
@@ -113,7 +149,6 @@ def check_log(rec, case, ctx, info, who):
     if any(x is not None for x in calls[0][1:]):
         ctx.fail("initialisation-call-has-non-None-arguments", parser=who, **info)
     marked_terms = {OPNAMES[oi] for i, (oi, _, _) in enumerate(case["ops"]) if case["mark_term"][i]}
-    marked_ops = {OPNAMES[oi] for i, (oi, _, _) in enumerate(case["ops"]) if case["mark_prod"][i]}
     for c in calls[1:]:
         if c[0] == "init":
             ctx.fail("initialisation-call-repeated-within-a-parse", parser=who, **info)
@@ -122,17 +157,24 @@ def check_log(rec, case, ctx, info, who):
                 ctx.fail("filter-called-for-unmarked-terminal", parser=who, terminal=c[1], **info)
         else:
             prod = c[1]
-            rhs = [s.name for s in list.__iter__(prod.rhs)]
-            if len(rhs) == 1 and case.get("mark_atom"):
-                if c[2] != 1:
-                    ctx.fail("filter-subresults-do-not-match-production", parser=who, production=str(prod),
-                             subresults=c[2], **info)
-                continue
-            if len(rhs) != 3 or rhs[1] not in marked_ops:
+            k = classify(prod)
+            if not is_marked(k, case):
                 ctx.fail("filter-called-for-unmarked-production", parser=who, production=str(prod), **info)
-            if c[2] != len(rhs):
+            if c[2] != len(prod.rhs):
                 ctx.fail("filter-subresults-do-not-match-production", parser=who, production=str(prod),
-                         subresults=c[2], **info)
+                         subresults=c[2], rhs=len(prod.rhs), **info)
+            # the sub-results are those of this reduction: an operator production sees its operator in
+            # the middle, and (LR, nested-list results) the leaves of its sub-results are a run of the input
+            if k[0] == "op" and who == "LR":
+                sub = c[3]
+                if sub[1] != OPS[OPNAMES.index(k[1])]:
+                    ctx.fail("filter-subresults-do-not-match-production", parser=who, production=str(prod),
+                             subresults=repr(sub)[:200], **info)
+                toks = info["expression"].split()
+                lv = leaves(sub)
+                if not any(toks[i:i + len(lv)] == lv for i in range(len(toks) - len(lv) + 1)):
+                    ctx.fail("filter-subresults-are-not-a-run-of-the-input", parser=who, production=str(prod),
+                             subresults=repr(sub)[:200], **info)
 
 
 def check_complete(rec, case, toks, ctx, info, who, exact):
@@ -146,22 +188,23 @@ def check_complete(rec, case, toks, ctx, info, who, exact):
     reds = collections.Counter()
     for c in rec.calls[1:]:
         if c[0] == "reduce":
-            rhs = [s.name for s in list.__iter__(c[1].rhs)]
-            reds[rhs[1] if len(rhs) == 3 else "atom"] += 1
+            reds[classify(c[1])] += 1
     for name, ch in marked_terms.items():
         need = toks.count(ch)
         if (shifts[name] != need) if exact else (shifts[name] < need):
             ctx.fail("marked-shift-did-not-reach-the-filter", parser=who, terminal=name, calls=shifts[name],
                      tokens=need, **info)
-    for name, ch in marked_ops.items():
-        need = toks.count(ch)   # every operator token is reduced once in a complete parse
-        if (reds[name] != need) if exact else (reds[name] < need):
-            ctx.fail("marked-reduction-did-not-reach-the-filter", parser=who, operator=name, calls=reds[name],
-                     reductions=need, **info)
-    if case.get("mark_atom"):
-        need = toks.count("n")
-        if (reds["atom"] != need) if exact else (reds["atom"] < need):
-            ctx.fail("marked-reduction-did-not-reach-the-filter", parser=who, operator="atom", calls=reds["atom"],
+    atoms = toks.count("n")
+    signed = toks.count("~")
+    needs = {("op", name): toks.count(ch) for name, ch in marked_ops.items()}   # one reduction per operator token
+    needs[("atom",)] = atoms
+    needs[("sign", "tilde")] = signed
+    needs[("sign", "empty")] = atoms - signed
+    for k, need in needs.items():
+        if not is_marked(k, case):
+            continue
+        if (reds[k] != need) if exact else (reds[k] < need):
+            ctx.fail("marked-reduction-did-not-reach-the-filter", parser=who, production="/".join(k), calls=reds[k],
                      reductions=need, **info)
 
 
@@ -181,7 +224,8 @@ def run_case(case, ctx):
     names = {OPNAMES[oi]: (p, a) for oi, p, a in case["ops"]}
     text_dyn = grammar_text(case, static=False)
     text_static_marked = grammar_text(case, static=True)
-    plain_case = dict(case, mark_prod=[False] * len(case["ops"]), mark_term=[False] * len(case["ops"]))
+    plain_case = dict(case, mark_prod=[False] * len(case["ops"]), mark_term=[False] * len(case["ops"]),
+                      mark_atom=False, sign=1 if case.get("sign") else 0)
     text_static_plain = grammar_text(plain_case, static=True)
     text_plain = grammar_text(plain_case, static=False)
     opchars = list(ops)
@@ -197,6 +241,21 @@ def run_case(case, ctx):
         for o in seq:
             toks += [opchars[o % len(opchars)], "n"]
         exprs.append(toks)
+    if case.get("sign"):
+        # signed variants: '~' before the atoms selected by a generated bit pattern
+        signed = []
+        for j, toks in enumerate(exprs):
+            bits = case.get("sign_bits", 5) + j
+            out, a = [], 0
+            for t in toks:
+                if t == "n":
+                    if (bits >> (a % 8)) & 1:
+                        out.append("~")
+                    a += 1
+                out.append(t)
+            if out != toks:
+                signed.append(out)
+        exprs += signed
     kind = case["filter"]
     fully = all(case["mark_prod"]) and all(case["mark_term"])
     info0 = dict(grammar=text_dyn, filter=kind)
@@ -234,10 +293,34 @@ def run_case(case, ctx):
         except (SRConflicts, RRConflicts) as e:
             ctx.fail("fully-marked-grammar-does-not-construct-with-filter", error=repr(e)[:200], **info0)
         glr = pgl.GLRParser(mk(text_full), dynamic_filter=rec_glr)
+    leaf_value = {False: nofilter_lr.parse("n"), True: nofilter_lr.parse("~ n") if case.get("sign") else None}
+
+    def expected(toks):
+        """precedence-climbing tree over the atoms, each atom standing for what the filterless parser
+        returns for it alone ('n', or [sign result, 'n'] under the Sign rule)"""
+        flat, vals = [], []
+        i = 0
+        while i < len(toks):
+            if toks[i] == "~":
+                flat.append("@%d" % len(vals))
+                vals.append(leaf_value[True])
+                i += 2
+            elif toks[i] == "n":
+                flat.append("@%d" % len(vals))
+                vals.append(leaf_value[False])
+                i += 1
+            else:
+                flat.append(toks[i])
+                i += 1
+
+        def subst(v):
+            if isinstance(v, list):
+                return [subst(x) for x in v]
+            return vals[int(v[1:])] if v.startswith("@") else v
+        return subst(ref_parse(flat, ops))
     for toks in exprs:
         text = " ".join(toks)
         info = dict(expression=text, **info0)
-        nops = (len(toks) - 1) // 2
         # ---------------- LR ----------------
         if lr is not None:
             rec_lr.calls = []
@@ -249,7 +332,7 @@ def run_case(case, ctx):
             check_log(rec_lr, case, ctx, info, "LR")
             if kind == "accept-all":
                 check_complete(rec_lr, case, toks, ctx, info, "LR", exact=True)
-            want = nofilter_lr.parse(text) if kind == "accept-all" else ref_parse(toks, ops)
+            want = nofilter_lr.parse(text) if kind == "accept-all" else expected(toks)
             if got != want:
                 ctx.fail("lr-result-with-filter-differs", got=repr(got), expected=repr(want), **info)
             if rec_lr.rejected >= 1 or len(rec_lr.calls) >= 4:
@@ -284,7 +367,7 @@ def run_case(case, ctx):
                     ctx.fail("glr-reject-filter-tree-set-differs", got=gv[:4], expected=want_vals[:4],
                              got_n=len(gv), expected_n=len(want_vals), **info)
         else:
-            want = ref_parse(toks, ops)
+            want = expected(toks)
             if out.kind != "ok":
                 ctx.fail("glr-precedence-filter-rejects", error=repr(out.exc)[:200], **info)
             n, loop = G.forest_len(out.value)
@@ -297,6 +380,99 @@ def run_case(case, ctx):
                            sample={"grammar": info0["grammar"], "filter": kind, "expression": text,
                                    "filter_calls": len(rec_glr.calls), "rejected": rec_glr.rejected})
         ctx.label("expressions")
+
+
+def run_partial(case, ctx):
+    """one-sided marking (documented use: mark only what the filter has to see).  All operators share one
+    level, no static priorities, strategies off, so every operator pair is an unresolved S/R conflict:
+      side 'terms': only the operator terminals are marked; the filter rejects every shift that competes
+                    with a reduction -> everything groups to the left;
+      side 'prods': only the operator productions are marked; the filter rejects every reduction while an
+                    operator is ahead -> everything groups to the right.
+    The conflicts are dynamic, so Parser must construct, the filter must see exactly the marked side, and
+    LR and GLR must return the left- / right-nested tree."""
+    side = case["side"]
+    k = len(case["ops"])
+    assoc = "left" if side == "terms" else "right"
+    gcase = {"ops": [[oi, 1, assoc] for oi in case["ops"]], "mark_prod": [side == "prods"] * k,
+             "mark_term": [side == "terms"] * k, "mark_atom": False, "sign": case.get("sign", 0)}
+    text = grammar_text(gcase, static=False)
+    ops = {OPS[oi]: (1, assoc) for oi in case["ops"]}
+    names = {OPNAMES[oi] for oi in case["ops"]}
+    info0 = dict(grammar=text, filter="one-sided:" + side)
+
+    def filt(context, from_state, to_state, action, production, subresults):
+        if action is None:
+            return None
+        if action is SHIFT:
+            return not any(a.action is REDUCE for a in from_state.actions[context.token.symbol])
+        if classify(production)[0] != "op":
+            return True
+        return context.token_ahead.symbol.name not in names
+    rec_lr, rec_glr = Recorder(filt), Recorder(filt)
+    mk = pgl.Grammar.from_string
+    try:
+        lr = pgl.Parser(mk(text), prefer_shifts=False, prefer_shifts_over_empty=False, dynamic_filter=rec_lr)
+    except (SRConflicts, RRConflicts) as e:
+        ctx.fail("one-sided-marking-does-not-construct-with-filter", error=repr(e)[:200], **info0)
+    glr = pgl.GLRParser(mk(text), dynamic_filter=rec_glr)
+    plain = pgl.Parser(mk(grammar_text(dict(gcase, mark_prod=[False] * k, mark_term=[False] * k,
+                                            sign=1 if gcase["sign"] else 0), static=True)),
+                       prefer_shifts=False, prefer_shifts_over_empty=False)
+    opchars = list(ops)
+    exprs = []
+    for n in range(0, 4):
+        for seq in itertools.product(opchars, repeat=n):
+            toks = ["n"]
+            for o in seq:
+                toks += [o, "n"]
+            exprs.append(toks)
+    for seq in case["long"]:
+        toks = ["n"]
+        for o in seq:
+            toks += [opchars[o % len(opchars)], "n"]
+        exprs.append(toks)
+    if gcase["sign"]:
+        exprs += [["~"] + t for t in exprs[:8]] + [t[:-1] + ["~", "n"] for t in exprs[:8]]
+    for toks in exprs:
+        text_in = " ".join(toks)
+        info = dict(expression=text_in, **info0)
+        want = plain.parse(text_in)     # static {left|right, 1} on every operator: the documented equivalent
+        for who, parser, rec in (("LR", lr, rec_lr), ("GLR", glr, rec_glr)):
+            rec.calls = []
+            rec.rejected = 0
+            if who == "LR":
+                try:
+                    got = [repr(parser.parse(text_in))]
+                except Exception as e:
+                    ctx.fail("lr-with-filter-raises", error=repr(e)[:300], **info)
+            else:
+                out = G.run_parse(parser, text_in)
+                if out.kind != "ok":
+                    ctx.fail("glr-with-filter-raises" if out.kind == "other" else "glr-precedence-filter-rejects",
+                             error=repr(out.exc)[:300], **info)
+                got = glr_values(parser, out.value)
+            check_log(rec, gcase, ctx, info, who)
+            if got != [repr(want)]:
+                ctx.fail("one-sided-filter-differs-from-static-associativity", parser=who, got=got[:3],
+                         expected=repr(want), **info)
+            if rec.rejected >= 1:
+                ctx.nontrivial([case["ops"], side, gcase["sign"], text_in, who],
+                               sample={"grammar": text, "filter": "one-sided:" + side, "expression": text_in,
+                                       "filter_calls": len(rec.calls), "rejected": rec.rejected})
+        ctx.label("expressions")
+    ctx.label("one-sided:" + side)
+
+
+def enum_partial(tier):
+    def it():
+        for side in ("terms", "prods"):
+            for k in (1, 2, 3):
+                for first in range(0, 6, 2 if tier == "quick" else 1):
+                    for sign in (0, 2, 3):
+                        yield {"ops": [(first + j) % 6 for j in range(k)], "side": side, "sign": sign,
+                               "long": [[0, 1, 2, 0], [2, 1, 0, 1, 2]]}
+    return it()
 
 
 @st.composite
@@ -312,6 +488,7 @@ def cases(draw):
             "mark_prod": draw(st.lists(st.booleans(), min_size=k, max_size=k)),
             "mark_term": draw(st.lists(st.booleans(), min_size=k, max_size=k)),
             "mark_atom": draw(st.integers(0, 2)) == 0,
+            "sign": draw(st.sampled_from([0, 0, 1, 2, 2, 3])), "sign_bits": draw(st.integers(1, 255)),
             "filter": draw(st.sampled_from(["accept-all", "reject", "precedence"])),
             "reject": draw(st.integers(0, 5)),
             "long": draw(st.lists(st.lists(st.integers(0, 5), min_size=4, max_size=4), max_size=3))}
@@ -333,13 +510,15 @@ def enum_small(tier):
                             for ma in (False, True):
                                 yield {"ops": [[0, p0, a0], [2, p1, a1]], "mark_prod": list(mp), "mark_atom": ma,
                                        "mark_term": list(mt), "filter": f, "reject": 1 if ma else 0,
-                                       "long": [[0, 1, 0, 1]]}
+                                       "long": [[0, 1, 0, 1]],
+                                       "sign": (0, 2, 3, 1)[(p0 + (a0 == "left") + 2 * ma + mp[0]) % 4]}
     return it()
 
 
 SUBCHECKS = [
     SubCheck("two-operator-exhaustive", run_case, enumerate=enum_small),
     SubCheck("random", run_case, strategy=strat, examples={"quick": 640, "thorough": 8000}),
+    SubCheck("one-sided-marking", run_partial, enumerate=enum_partial),
 ]
 
 
